@@ -142,6 +142,31 @@ class RidgeCase:
         return [([lon0 + w * self.rng.uniform(0.05, 0.95), lat0 + h * self.rng.uniform(0.05, 0.95)], float(self.rng.choice([5e3, 20e3, 45e3, 80e3]))) for _ in range(n)]
 
 
+class SlabRidgeCase(RidgeCase):
+    """a structured spherical world: a slab with the mass conserving temperature whose ridge lies 30-90 degrees west of the trench, with a subducting velocity that differs
+    from the spreading velocity and per-point spreading velocities - the ridge kernel's four outputs all matter, and under a longitude offset the far copy of the query
+    (point +- 2 pi) becomes the one that is projected"""
+    def __init__(self, rng):
+        self.rng = rng
+        lon0 = rng.choice([-150, -60, 20, 60, 100]) + rng.choice([0, 0.5, 2.25])
+        lat0 = rng.choice([-20, 0, 10])
+        gap = rng.choice([30, 60, 90])
+        self.trench = lon0 + gap + 60
+        sv = rng.choice([0.05, 0.08]); sub = rng.choice([0.02, 0.03, sv])
+        mc = {"model": "mass conserving", "density": 3300, "thermal conductivity": 3.3, "adiabatic heating": rng.random() < 0.7,
+              "spreading velocity": rng.choice([sv, [[0, [[sv, sv * 0.5]]]]]), "subducting velocity": sub,
+              "ridge coordinates": [[[lon0, lat0 + rng.choice([-3, 0, 2])], [lon0 + 60, lat0 + rng.choice([-2, 0, 3])]]], "coupling depth": 80e3, "taper distance": 100e3,
+              "min distance slab top": -100e3, "max distance slab top": 150e3, "reference model name": rng.choice(["half space model", "plate model"])}
+        self.lat0 = lat0
+        self.w = {"version": "1.1", "coordinate system": {"model": "spherical", "depth method": "begin segment"},
+                  "features": [{"model": "subducting plate", "name": "s", "coordinates": [[self.trench, lat0 - 5], [self.trench + rng.choice([0, 1]), lat0 + 5]], "dip point": [self.trench + 10, lat0],
+                                "segments": [{"length": 400e3, "thickness": [150e3], "top truncation": [-100e3], "angle": [rng.choice([30, 45, 60])]}], "temperature models": [mc]}]}
+
+    def queries(self, n):
+        r = self.rng
+        return [([self.trench + r.uniform(0.1, 2.5), self.lat0 + r.uniform(-4, 4)], float(r.choice([20e3, 60e3, 120e3, 200e3]))) for _ in range(n)]
+
+
 class TrenchCase:
     """a structured Cartesian world: a long slab or fault (3-4 trench vertices over ~1500-3000 km in a random direction, listed in a random order of
     east/west and north/south) with a short reach, over an oceanic plate; queries all along the trench; moved by random rotations.  (Anything a feature
@@ -207,6 +232,9 @@ def gen_case(rng, decl, spherical, tier):
     if spherical == "trench":
         g = TrenchCase(rng)
         return g, g.world(), g.queries(budget(tier, 20, 40))
+    if spherical == "slabridge":
+        g = SlabRidgeCase(rng)
+        return g, g.world(), g.queries(budget(tier, 14, 30))
     if spherical == "ridge":
         g = RidgeCase(rng)
         return g, g.world(), g.queries(budget(tier, 14, 30))
@@ -352,7 +380,7 @@ def oracle(seed, tier):
         spherical = wi % 2 == 0
         # every sixth world: the structured oblique-ridge case (ages from a ridge with varying spreading velocity)
         # every sixth world: a long Cartesian trench under random rotations
-        g, w, qs = gen_case(rng, decl, "ridge" if wi % 6 == 4 else ("trench" if wi % 6 == 1 else spherical), tier)
+        g, w, qs = gen_case(rng, decl, "ridge" if wi % 6 == 4 else ("trench" if wi % 6 == 1 else ("slabridge" if wi % 6 == 2 else spherical)), tier)
         p0 = os.path.join(wdir, "o_%d.wb" % wi)
         json.dump(w, open(p0, "w"))
         lines = ["world a %s -" % p0]
